@@ -76,6 +76,11 @@ Base(p) == content[w[p].gen]
 WAdd(p, k) == /\ w[p].pc = "writing"
               /\ w' = [w EXCEPT ![p].adds = @ \cup {<<k, 0>>}]
               /\ UNCHANGED <<files, toc, content, lock, r, nseg, clean>>
+\* add_document of a key that may already be live: nothing is deleted, the documents coexist (they are
+\* told apart by their second field)
+WAddDup(p, k, u) == /\ w[p].pc = "writing"
+                    /\ w' = [w EXCEPT ![p].adds = @ \cup {<<k, u>>}]
+                    /\ UNCHANGED <<files, toc, content, lock, r, nseg, clean>>
 WDel(p, k) == /\ w[p].pc = "writing"
               /\ w' = [w EXCEPT ![p].dels = @ \cup {d \in Base(p) : d[1] = k}]
               /\ UNCHANGED <<files, toc, content, lock, r, nseg, clean>>
